@@ -93,6 +93,13 @@ class HeapMixin:
     def field_type(self, cname: str, attr: str):
         """(declaring class name, Type) or None."""
         cur = self.repo.classes.get(cname)
+        if cur is None:
+            # a view type declared only in a sidecar (the id table of HeaderExtensionsMap is a HeaderExtensions object whose
+            # fields hold ids): its fields are exactly the declared ones
+            for q, spec in self.reg.classes.items():
+                if q.split(":")[-1] == cname and attr in spec.fields:
+                    return cname, self.parse_type(spec.fields[attr])
+            return None
         seen = set()
         while cur is not None and cur.qual not in seen:
             seen.add(cur.qual)
@@ -177,11 +184,11 @@ class HeapMixin:
             self.may_raise(st, z3.BoolVal(True), "AttributeError", node, f"None has no attribute {attr}")
             raise DeadPath()
         if isinstance(t, TObj):
-            ci = self.class_info(t.cls)
             ft = self.field_type(t.cls, attr)
             if ft is not None:
                 decl, ftype = ft
                 return self.read_field(st, base.z, decl, attr, ftype)
+            ci = self.class_info(t.cls)
             m = self.repo.lookup_method(ci, attr)
             if m is None and attr.startswith("_") and "__" in attr[1:]:
                 # name-mangled private method: self.__discard is stored as __discard in the class body
